@@ -228,7 +228,98 @@ def gen_sniff(facts):
             'def defaultContentType : String := %s' % lean_str(facts['default_content_type'])]
 
 
-GENERATORS = [('sniff', gen_sniff), ('escape', gen_escape), ('names', gen_names), ('wrap', gen_wrap), ('repeat', gen_repeat)]
+CACHE_OPTIONS = {
+    'trim_attribute_space': [False, True], 'implicit_i18n_translate': [False, True], 'strict': [True, False],
+    'boolean_attributes': [None, {'title'}], 'implicit_i18n_attributes': [set(), {'title'}], 'enable_data_attributes': [False, True],
+    'enable_comment_interpolation': [True, False], 'restricted_namespace': [True, False], 'default_expression': ['python', 'string'],
+    'encoding': [None, 'utf-8'], 'keep_body': [False, True], 'debug_marker': [0, 1],
+    'tokenizer': [None, 'custom'], 'expression_types': [None, 'custom'], 'default_marker': [None, 'custom'],
+    'literal_false': [None, False],
+}
+CACHE_PROBES = [
+    '<p title="a  b"   class="x">${1} <!-- ${2} --></p>',
+    '<i tal:content="bad +" tal:condition="False"/>',
+    '<p title="t" data-tal-content="1">Hello ${default | 3}</p>',
+    '<p i18n:translate="" title="t">Hello <b i18n:name="n">w</b></p>',
+    '<p zz:x="1">x</p>',
+    '<input title="${None}" checked="${False}"/><span tal:replace="x">y</span>',
+]
+
+
+def canon_source(src):
+    """generated module source with the id()-derived identifier suffixes and object addresses numbered by first appearance"""
+    import re
+    seen = {}
+
+    def sub(m):
+        k = m.group(0)
+        if k not in seen:
+            seen[k] = 'N%d' % len(seen)
+        return seen[k]
+    return re.sub(r'(?<![0-9a-zA-Z])(?:0x)?[0-9a-f]{10,}(?![0-9a-zA-Z])|(?<=_)\d{9,}', sub, src)
+
+
+def _cache_opt(name, v):
+    """constructor keyword arguments for an option value (None: the class default)"""
+    if name == 'debug_marker':
+        return {}            # a pseudo-option nothing reads: control (must be neither keyed nor influencing)
+    if v is None or (name == 'implicit_i18n_attributes' and v == set()):
+        return {}
+    if v == 'custom':
+        if name == 'tokenizer':
+            from chameleon.tokenize import iter_text
+            return {'tokenizer': iter_text}
+        if name == 'expression_types':
+            from chameleon.tales import StringExpr
+            from chameleon.zpt.template import PageTemplate
+            d = dict(PageTemplate.expression_types)
+            d['python'] = StringExpr
+            return {'expression_types': d}
+        if name == 'default_marker':
+            import ast
+            return {'default_marker': ast.Constant('MARK')}
+    return {name: v}
+
+
+def gen_cache(facts):
+    """which constructor options are part of the cache key (digest) and which influence the generated code: observed by
+    flipping each option on probe bodies"""
+    from chameleon.zpt.template import PageTemplate
+    keyed, infl = [], []
+    for name, (v0, v1) in CACHE_OPTIONS.items():
+        k = i = False
+        for body in CACHE_PROBES:
+            res = []
+            for v in (v0, v1):
+                kw = _cache_opt(name, v)
+                t0 = PageTemplate('x', **kw)           # the key is computed before (and whether or not) the body compiles
+                builtins_dict = t0.builtins.copy()
+                builtins_dict.update(t0.extra_builtins)
+                names = tuple(sorted(builtins_dict))
+                dg = t0.digest(body, names)
+                try:
+                    t = PageTemplate(body, keep_source=True, **kw)
+                    res.append((dg, canon_source(t.source)))
+                except Exception as e:
+                    res.append((dg, 'ERR %s' % type(e).__name__))
+            if res[0][0] != res[1][0]:
+                k = True
+            if res[0][1] != res[1][1]:
+                i = True
+        if k:
+            keyed.append(name)
+        if i:
+            infl.append(name)
+    facts['cache_keyed'] = keyed
+    facts['cache_influencing'] = infl
+    return ['/-- constructor options whose flip changes `PageTemplate.digest` (observed) -/',
+            'def cacheKeyed : List String := ' + lean_strs(keyed),
+            '/-- constructor options whose flip changes the generated module source on the probe bodies (observed) -/',
+            'def cacheInfluencing : List String := ' + lean_strs(infl),
+            'def cacheOptionsProbed : List String := ' + lean_strs(list(CACHE_OPTIONS))]
+
+
+GENERATORS = [('cache', gen_cache), ('sniff', gen_sniff), ('escape', gen_escape), ('names', gen_names), ('wrap', gen_wrap), ('repeat', gen_repeat)]
 
 
 def gen_tables(facts):
